@@ -208,3 +208,29 @@ contract(ASS + "._statement_for_a_group_with_a_useless_positive_closure", params
     ensures=[IN(G2 + "._constraints", "result"), "not " + PLUS("result")], raises=[],
     loops={0: {"invariant": ["forall(Int, lambda j: implies(0 <= j and j < _i0, %s))" % PLUS("_seq0[j]"), "list_eq(_seq0, %s._constraints)" % G2]}},
     props=["C03"])
+
+MCS = "mergeable_constraints"
+MCL = MCS + "._constraints"
+ANY_PLUS = "exists(Int, lambda j: 0 <= j and j < len(old(%s)) and %s)" % (MCL, "pre(old(%s)[j]._cardinality) == '+'" % MCL)
+ANY_EXACT = "exists(Int, lambda j: 0 <= j and j < len(old(%s)) and %s)" % (MCL, "pre(old(%s)[j]._cardinality) != '+'" % MCL)
+USELESS_OLD = USELESS.format("old(%s)" % MCL)
+contract(ASS + "._decide_best_statement_with_cardinalities_in_comments", params={MCS: MCT}, returns=Statement,
+    requires=MEMBERS_OK(MCS) + ["len(%s) >= 2" % MCL],
+    ensures=[IN("old(%s)" % MCL, "result"),
+             # useless positive closure: the exact cardinality is kept
+             "implies(self._discard_useless_positive_closures and %s, result._cardinality != '+')" % USELESS_OLD,
+             # otherwise, keep_less_specific prefers '+' whenever it is on offer (it always is: C03) ...
+             "implies(not (self._discard_useless_positive_closures and %s) and self._keep_less_specific and %s, result._cardinality == '+')" % (USELESS_OLD, ANY_PLUS),
+             # ... and the specific mode prefers an exact cardinality whenever there is one
+             "implies(not (self._discard_useless_positive_closures and %s) and not self._keep_less_specific and %s, result._cardinality != '+')" % (USELESS_OLD, ANY_EXACT),
+             # figures of every alternative are untouched; only the winner's comments grow
+             "heap_eq('Statement._cardinality')", "heap_eq('Statement._probability')", "heap_eq('Statement._n_occurences')", "heap_eq('Statement._st_type')",
+             "forall(Statement, lambda r: implies(r != result, r._comments == pre(r._comments)))"],
+    raises=[], modifies=["Statement._comments", "MC._constraints[mergeable_constraints]", "MC._shape_constraints[mergeable_constraints]"],
+    ghost={"__locals__": {"result": Opt(Statement)}},
+    loops={0: {"invariant": ["result is None", "forall(Int, lambda j: implies(0 <= j and j < _i0, _seq0[j]._cardinality != '+'))"]},
+           1: {"invariant": ["result is None", "forall(Int, lambda j: implies(0 <= j and j < _i1, _seq1[j]._cardinality == '+'))"]},
+           2: {"invariant": ["result is not None", "heap_eq('Statement._cardinality')", "heap_eq('Statement._probability')",
+                             "forall(Statement, lambda r: implies(r != some(result), r._comments == pre(r._comments)))",
+                             "list_eq(_seq2, %s)" % MCL]}},
+    props=["C03", "C01", "C09", "C02"], note="the chosen statement is a member of its group; '+' wins under keep_less_specific unless it is useless")
